@@ -39,6 +39,19 @@ func main() {
 		os.Exit(cmdCheck(os.Args[2:]))
 	case "replay":
 		os.Exit(cmdReplay(os.Args[2:]))
+	case "rel":
+		p := mustLoad()
+		t0 := time.Now()
+		obs, notes, err := p.relObligations()
+		fmt.Println("gen", time.Since(t0), len(obs), err, notes)
+		t0 = time.Now()
+		discharge(obs, dischargeOpts{timeoutMs: 10000, workers: 16})
+		fmt.Println("discharge", time.Since(t0))
+		for _, o := range obs {
+			if o.Result.Status != "unsat" {
+				fmt.Println(o.Name, o.Result.Status, o.Result.Elapsed, o.Result.All)
+			}
+		}
 	case "selftest":
 		os.Exit(cmdSelftest(os.Args[2:]))
 	default:
